@@ -877,3 +877,209 @@ func replaceToken(s, old, new string) string {
 	}
 	return string(out)
 }
+
+// flagLoopsToBreaks: `for run := true; run; { select { …; case <-t: run = false } }` (or `done := false; for !done
+// { … done = true … }`) is the labelled-break loop `L: for { select { …; case <-t: break L } }` when the flag has no
+// other use and every assignment that ends the loop is in tail position of the loop body (nothing runs between it and
+// the next evaluation of the condition). The rules read loop exits off the control-flow graph; a flag hides the exit
+// behind a value. Purely syntactic, checked through go/types objects.
+func flagLoopsToBreaks(c *Ctx) (map[string]bool, []string) {
+	changed := map[string]bool{}
+	var notes []string
+	nLabel := 0
+	for pk, p := range c.Pkgs {
+		if strings.HasPrefix(pk, "pkg/dialects") || strings.HasPrefix(pk, "examples") || strings.HasPrefix(pk, "cmd") {
+			continue
+		}
+		info := p.TypesInfo
+		for _, f := range p.Syntax {
+			for _, d := range f.Decls {
+				fd, ok := d.(*ast.FuncDecl)
+				if !ok || fd.Body == nil {
+					continue
+				}
+				// uses of every object in this function
+				uses := map[types.Object][]*ast.Ident{}
+				ast.Inspect(fd.Body, func(n ast.Node) bool {
+					if id, ok := n.(*ast.Ident); ok {
+						if o := info.Uses[id]; o != nil {
+							uses[o] = append(uses[o], id)
+						}
+					}
+					return true
+				})
+				boolConst := func(e ast.Expr) (bool, bool) {
+					id, ok := e.(*ast.Ident)
+					if !ok {
+						return false, false
+					}
+					if cst, ok := info.Uses[id].(*types.Const); ok && cst.Parent() == types.Universe {
+						return id.Name == "true", id.Name == "true" || id.Name == "false"
+					}
+					return false, false
+				}
+				var visit func(list *[]ast.Stmt)
+				visit = func(list *[]ast.Stmt) {
+					for i := 0; i < len(*list); i++ {
+						st := (*list)[i]
+						var label *ast.LabeledStmt
+						if ls, ok := st.(*ast.LabeledStmt); ok {
+							label = ls
+							st = ls.Stmt
+						}
+						fs, isFor := st.(*ast.ForStmt)
+						if isFor && fs.Post == nil && fs.Cond != nil {
+							// condition: flag or !flag
+							cond, negated := fs.Cond, false
+							if u, ok := cond.(*ast.UnaryExpr); ok && u.Op == token.NOT {
+								cond, negated = u.X, true
+							}
+							if id, ok := cond.(*ast.Ident); ok {
+								if vobj, ok := info.Uses[id].(*types.Var); ok && !vobj.IsField() && types.Identical(vobj.Type(), types.Typ[types.Bool]) {
+									// the declaration: loop init, or the statement just before the loop
+									var declStmt *ast.AssignStmt
+									inInit := false
+									if as, ok := fs.Init.(*ast.AssignStmt); ok && as.Tok == token.DEFINE && len(as.Lhs) == 1 && len(as.Rhs) == 1 {
+										if lid, ok := as.Lhs[0].(*ast.Ident); ok && info.Defs[lid] == types.Object(vobj) {
+											declStmt, inInit = as, true
+										}
+									}
+									if declStmt == nil && fs.Init == nil && i > 0 {
+										if as, ok := (*list)[i-1].(*ast.AssignStmt); ok && as.Tok == token.DEFINE && len(as.Lhs) == 1 && len(as.Rhs) == 1 {
+											if lid, ok := as.Lhs[0].(*ast.Ident); ok && info.Defs[lid] == types.Object(vobj) {
+												declStmt = as
+											}
+										}
+									}
+									if declStmt != nil {
+										iv, isC := boolConst(declStmt.Rhs[0])
+										if isC && iv != negated { // the condition holds initially
+											// every other use: an assignment in the body that makes the condition false, in tail position
+											var ends []*ast.AssignStmt
+											okUses := true
+											endLHS := map[*ast.Ident]bool{}
+											var tail func(body []ast.Stmt, isTail bool)
+											tail = func(body []ast.Stmt, isTail bool) {
+												for j, s := range body {
+													last := isTail && j == len(body)-1
+													switch x := s.(type) {
+													case *ast.AssignStmt:
+														if len(x.Lhs) == 1 && len(x.Rhs) == 1 && x.Tok == token.ASSIGN {
+															if lid, ok := x.Lhs[0].(*ast.Ident); ok && info.Uses[lid] == types.Object(vobj) {
+																v, isK := boolConst(x.Rhs[0])
+																if !isK || v != negated || !last {
+																	okUses = false
+																}
+																ends = append(ends, x)
+																endLHS[lid] = true
+															}
+														}
+													case *ast.BlockStmt:
+														tail(x.List, last)
+													case *ast.IfStmt:
+														tail(x.Body.List, last)
+														switch e := x.Else.(type) {
+														case *ast.BlockStmt:
+															tail(e.List, last)
+														case *ast.IfStmt:
+															tail([]ast.Stmt{e}, last)
+														}
+													case *ast.SelectStmt:
+														for _, cl := range x.Body.List {
+															tail(cl.(*ast.CommClause).Body, last)
+														}
+													case *ast.SwitchStmt:
+														for _, cl := range x.Body.List {
+															tail(cl.(*ast.CaseClause).Body, last)
+														}
+													case *ast.TypeSwitchStmt:
+														for _, cl := range x.Body.List {
+															tail(cl.(*ast.CaseClause).Body, last)
+														}
+													case *ast.ForStmt:
+														tail(x.Body.List, false)
+													case *ast.RangeStmt:
+														tail(x.Body.List, false)
+													case *ast.LabeledStmt:
+														tail([]ast.Stmt{x.Stmt}, last)
+													}
+												}
+											}
+											tail(fs.Body.List, true)
+											for _, uid := range uses[vobj] {
+												if uid != id && !endLHS[uid] {
+													okUses = false
+												}
+											}
+											// function literals inside the body may assign the flag too: any use inside one was not seen by tail()
+											if okUses && len(ends) > 0 && len(uses[vobj]) == 1+len(ends) {
+												if label == nil {
+													nLabel++
+													label = &ast.LabeledStmt{Label: &ast.Ident{Name: fmt.Sprintf("zzflagloop%d", nLabel), NamePos: fs.Pos()}, Colon: fs.Pos(), Stmt: fs}
+													(*list)[i] = label
+												}
+												for _, e := range ends {
+													replaceStmt(fs.Body, e, &ast.BranchStmt{TokPos: e.Pos(), Tok: token.BREAK, Label: &ast.Ident{Name: label.Label.Name, NamePos: e.Pos()}})
+												}
+												fs.Cond = nil
+												if inInit {
+													fs.Init = nil
+												} else {
+													(*list)[i-1] = &ast.EmptyStmt{Semicolon: declStmt.Pos(), Implicit: true}
+												}
+												changed[pk] = true
+												notes = append(notes, fmt.Sprintf("flag-controlled loop in %s rewritten as a labelled-break loop (%d exits)", funcKey(pk, fd), len(ends)))
+											}
+										}
+									}
+								}
+							}
+						}
+						// recurse
+						ast.Inspect((*list)[i], func(n ast.Node) bool {
+							switch y := n.(type) {
+							case *ast.BlockStmt:
+								visit(&y.List)
+								return false
+							case *ast.CaseClause:
+								visit(&y.Body)
+								return false
+							case *ast.CommClause:
+								visit(&y.Body)
+								return false
+							case *ast.FuncLit:
+								return false
+							}
+							return true
+						})
+					}
+				}
+				visit(&fd.Body.List)
+			}
+		}
+	}
+	return changed, notes
+}
+
+// replaceStmt replaces statement old by repl wherever it occurs in the statement lists below root.
+func replaceStmt(root ast.Node, old, repl ast.Stmt) {
+	ast.Inspect(root, func(n ast.Node) bool {
+		var list *[]ast.Stmt
+		switch y := n.(type) {
+		case *ast.BlockStmt:
+			list = &y.List
+		case *ast.CaseClause:
+			list = &y.Body
+		case *ast.CommClause:
+			list = &y.Body
+		}
+		if list != nil {
+			for i, s := range *list {
+				if s == old {
+					(*list)[i] = repl
+				}
+			}
+		}
+		return true
+	})
+}
